@@ -90,6 +90,16 @@ CHECKS = {
             'that whitespace/separator variants agree with their base, and that accepted texts agree with the reference\'s parse '
             'of the complete text. Held on the texts observed.',
             'Trusted: arity table transcribed from the pinned grammar; vf/xlref for accepted texts only.'),
+    'C07': ('runtime monitoring: sys.addaudithook + canary side effects while the generated module is loaded and evaluated; '
+            'token monitor on the generated source; round-trip oracle',
+            'Hostile strings (quotes, backslashes, newlines, braces, format fields, Python call syntax; a third carry payloads that '
+            'would touch a canary file or set a builtin) with unique markers are planted in constant cells, formula literals, '
+            'function arguments, criterion and wildcard-pattern positions, whole-formula payloads and sheet titles; the '
+            'generated source is tokenized (markers only inside STRING tokens, module parses), loaded and evaluated under an '
+            'armed audit hook (no exec/compile/import outside the allow-list, no process/file/socket events), canaries are '
+            'checked, and constants / plain literals must evaluate to exactly the original text. Gate on and off. '
+            'Held on the strings observed.',
+            'Trusted: CPython audit events and tokenize. Each shard is a fresh process (audit hooks are permanent).'),
 }
 
 LEVELS = {}
